@@ -12,8 +12,8 @@ LEVEL = "exploration"
 RULE = (
     "cases = loss specs (ODE / stationary / non-stationary) with at least one of: initial condition (ODE (t0,u0) with "
     "scalar/vector u0; PDE initial function returning (), (1,) or (m,)), normalisation (2..8 sample points, arbitrary "
-    "positive volume, scalar density), observations (table of N rows, output slice, 0..2 observed equation parameters "
-    "given per row), optional per-sample parameter batch; networks whose output depends on the inputs and, through an "
+    "positive volume, scalar density), observations (table of N rows, output slice, optional non-default slice_solution of a multi-output network, "
+    "0..2 observed equation parameters given per row), optional per-sample parameter batch; networks whose output depends on the inputs and, through an "
     "output transform, on equation parameters (so row alignment is observable). Oracle: numpy loops written from the "
     "statement. Non-trivial = IC mismatch non-zero; u varies by >10% over the normalisation samples (mean of squares "
     "!= square of mean); observed parameter rows pairwise distinct and the network output sensitive to them."
